@@ -4,6 +4,7 @@ import (
 	"fmt"
 	"math"
 	"os"
+	"strings"
 	"time"
 
 	"gopkg.in/yaml.v3"
@@ -443,6 +444,15 @@ func (c *Config) validateMetrics() error {
 		}
 		if c.Metrics.Path == "" {
 			return fmt.Errorf("metrics path is required when enabled")
+		}
+		// the metrics server registers the path as a ServeMux pattern next to its own /health
+		// endpoint: a path without a leading slash would never be reachable, /health would make
+		// the registration panic at startup
+		if !strings.HasPrefix(c.Metrics.Path, "/") {
+			return fmt.Errorf("metrics path must start with '/' (got %q)", c.Metrics.Path)
+		}
+		if c.Metrics.Path == "/health" {
+			return fmt.Errorf("metrics path /health is reserved for the health endpoint of the metrics server")
 		}
 	}
 	return nil
